@@ -292,6 +292,22 @@ func runResp(cfg simrt.Config, d respDelivery, c respClient) *respResult {
 					}
 					res.Recs = append(res.Recs, recPkg(pkg))
 				}
+				// A poll picks at random between "nothing ready" and a queued error: make sure no error is
+				// waiting with one blocking receive under a one-millisecond deadline (no package is queued, so only
+				// an error can end it early).
+				for n := 0; n < 12; n++ {
+					sctx, scancel := simrt.WithTimeout(ctx, time.Millisecond)
+					pkg, err := ch.NextPackage(sctx, true)
+					scancel()
+					if err != nil {
+						if simrt.IsSimCtxErr(err) {
+							break
+						}
+						res.Recs = append(res.Recs, recErr(err))
+						continue
+					}
+					res.Recs = append(res.Recs, recPkg(pkg))
+				}
 				res.Recs = append(res.Recs, PkgRec{Type: "poll-end", Now: simrt.SimNow()})
 			}
 			return
@@ -384,6 +400,12 @@ func genResponse(r *Rand, maxPkgs int) []string {
 			free = append(free, e.Name)
 		}
 	}
+	var interleave []string
+	for _, e := range free {
+		if k := zooIndex[e].Kind; k == "EED" || k == "ENVCHANGE" {
+			interleave = append(interleave, e)
+		}
+	}
 	var names []string
 	n := 1 + r.Intn(maxPkgs)
 	for len(names) < n {
@@ -404,6 +426,10 @@ func genResponse(r *Rand, maxPkgs int) []string {
 			}
 			k := 1 + r.Intn(3)
 			for i := 0; i < k && len(datas) > 0; i++ {
+				if r.Pct(12) && len(interleave) > 0 {
+					// server messages and environment changes may arrive in the middle of a result set
+					names = append(names, Pick(r, interleave))
+				}
 				names = append(names, Pick(r, datas))
 			}
 		} else {
